@@ -8,6 +8,7 @@ import (
 	"verif/harness/checks/c06"
 	"verif/harness/checks/c08"
 	"verif/harness/checks/c09"
+	"verif/harness/checks/c10"
 	"verif/harness/checks/c12"
 	"verif/harness/checks/c13"
 	"verif/harness/checks/c14"
@@ -23,6 +24,7 @@ func init() {
 	register("C06", "model_checking", c06.Run, c06.Replay)
 	register("C08", "exploration", c08.Run, c08.Replay)
 	register("C09", "exploration", c09.Run, c09.Replay)
+	register("C10", "model_checking", c10.Run, c10.Replay)
 	register("C12", "exploration", c12.Run, c12.Replay)
 	register("C13", "exploration", c13.Run, c13.Replay)
 	register("C14", "model_checking", c14.Run, c14.Replay)
